@@ -117,6 +117,35 @@ fn pool_scenario() {
             assert_eq!(**b.as_ref().unwrap(), i as u64);
         }
     }
+    // Two callers use the pool at the same time ("invoking `broadcast` from
+    // two threads will cause one thread to wait for the other to finish"):
+    // the second caller's task reaches a worker that may still be serving
+    // the first caller; every clause holds per broadcast. Plain cells again,
+    // so a missing happens-before edge is a data race.
+    std::thread::scope(|s| {
+        for lane in 0..2usize {
+            let pool = &pool;
+            s.spawn(move || {
+                let me = std::thread::current().id();
+                for (k, n) in [[2usize, 1], [1, 3]][lane].into_iter().enumerate() {
+                    let tag = (lane * 10 + k + 1) as u64 * 1000;
+                    let mut cells: Vec<u64> = vec![0; n + 1];
+                    let base = SyncPtr(cells.as_mut_ptr());
+                    let calls = AtomicUsize::new(0);
+                    pool.broadcast(n, |i| {
+                        calls.fetch_add(1, Relaxed);
+                        assert_eq!(i == 0, std::thread::current().id() == me, "index {i}: wrong thread");
+                        // SAFETY: each index is called exactly once.
+                        unsafe { *base.get().add(i) = tag + i as u64 };
+                    });
+                    assert_eq!(calls.load(Relaxed), n + 1);
+                    for i in 0..=n {
+                        assert_eq!(cells[i], tag + i as u64, "lane {lane} broadcast {k}: write of call {i} not visible");
+                    }
+                }
+            });
+        }
+    });
     drop(pool);
 }
 
